@@ -507,8 +507,11 @@ def decode_one(fmt, b, variant=False):
         return o
     if fmt == "toml":
         o = D.decode_toml(b)
+        # a float spelling beyond the f64 range: readers differ (inf / error)
         if not re.search(rb"inf|nan", b):
-            _finite(o, variant)          # a float spelling beyond the f64 range: readers differ (inf / error)
+            _finite(o, variant)
+        elif variant and any(_overflows(m.group(0), True) for m in _NUMTOK.finditer(b.decode("utf-8"))):
+            raise Outside("float spelling beyond (or at the very edge of) the f64 range")
         return o
     if fmt == "yaml":
         yaml, Core12, Unique = D._yaml_mod()
@@ -528,6 +531,8 @@ def decode_one(fmt, b, variant=False):
                         raise Outside("number with leading zeros")
                     if ev.value == "<<":
                         raise Outside("merge key")
+                    if _NUMTOK.fullmatch(ev.value) and _overflows(ev.value, variant):
+                        raise Outside("float spelling beyond (or at the very edge of) the f64 range")
         except (yaml.YAMLError, ValueError, OverflowError) as e:   # ValueError: a \U escape beyond U+10FFFF
             msg = str(e).replace("\n", " ")[:200]
             if "'\\t'" in msg:
@@ -583,6 +588,17 @@ def decode_one(fmt, b, variant=False):
             _finite(res[0][1], variant)
         return res[0][1]
     raise C.ToolError("no decoder for %s" % fmt)
+
+
+_NUMTOK = re.compile(r"[-+]?[0-9][0-9_]*(?:\.[0-9_]*)?(?:[eE][-+]?[0-9]+)?")
+
+
+def _overflows(tok, edge):
+    try:
+        x = float(tok.replace("_", ""))
+    except ValueError:
+        return False
+    return math.isinf(x) or (edge and abs(x) == 1.7976931348623157e308)
 
 
 def _finite(o, edge=False):
